@@ -414,6 +414,15 @@ def search(ctx, info, nhist, nreq):
     return runs, found
 
 
+COHERENCE_MODULE = "AurelVerif.Props.C01Coherence"
+COHERENCE_THEOREMS = ["AurelVerif.C01Coherence." + t for t in (
+    "metric_components_coherent", "metric_tensor_coherent", "curvature_components_coherent",
+    "shift_components_coherent", "component_defaults", "s_to_st_coherent", "Ttrace_coherent")] + [
+    "AurelVerif.C08.gt_coherent", "AurelVerif.C08.gdet_coherent", "AurelVerif.C09.eos_consistent"]
+COHERENCE_NEEDED = ["gxx", "gxy", "gxz", "gyy", "gyz", "gzz", "gammadown3", "kxx", "Kdown3", "betax", "betaup3",
+                    "dtbetax", "dtbetaup3", "s_to_st", "Ttrace", "gtt", "gdet", "rho0", "eps", "rho"]
+
+
 def run(ctx):
     ctx.trusted += ["Lean 4.33 kernel; axioms propext, Classical.choice, Quot.sound",
                     "py2lean/depgraph.py (AST -> shapes; validated on every run against the real nested request traces)",
@@ -456,6 +465,16 @@ def run(ctx):
         ctx.obligation("py2lean:depgraph", False, "translation failed: %r" % ex, kind="translation")
     ctx.prove(MODULE, THEOREMS)
     ctx.forbidden_scan(LEAN_FILES)
+    # branch coherence (H2) of the REAL formulas: theorems about the alternatives regenerated from
+    # core.py by symbolic execution (lead's part; see Props/C01Coherence.lean for what is proven where)
+    try:
+        from lib import corecheck
+        r = corecheck.regen_and_validate(ctx, COHERENCE_NEEDED)
+        if r is not None:
+            ctx.prove(COHERENCE_MODULE, COHERENCE_THEOREMS, timeout=2400)
+            ctx.forbidden_scan(["AurelVerif/Props/C01Coherence.lean"])
+    except Exception as ex:  # noqa
+        ctx.obligation("coherence theorems", False, "could not be checked: %r" % ex)
     if ctx.tier == "thorough":
         ctx.leanchecker([MODULE])
     # correspondence (bookkeeping) — shared harness with C03
